@@ -107,11 +107,19 @@ macro_rules! path_case {
         }
     };
 }
-path_case!(c21_q_case_parent_dir, b"../x.data", false);
+path_case!(c21_t_case_parent_dir, b"../x.data", false);
 path_case!(c21_q_case_nested, b"sub/x.data", false);
-path_case!(c21_q_case_absolute, b"/etc/x.data", false);
+path_case!(c21_t_case_absolute, b"/etc/x.data", false);
 path_case!(c21_q_case_cur_dir, b"./x.data", false);
 path_case!(c21_q_case_split_file, b"m.onnx_data_1", true);
 path_case!(c21_t_case_traversal_mid, b"x.data/../y.data", false);
 path_case!(c21_t_case_backslash, b"..\\x.data", true);
 path_case!(c21_t_case_onnx_data, b"model.onnx_data", true);
+// extension rules
+path_case!(c21_t_case_ext_contains_data, b"a.xdata", false);
+path_case!(c21_q_case_second_extension, b"x.data.exe", false);
+path_case!(c21_q_case_empty_stem, b".data", false);
+path_case!(c21_t_case_upper_case, b"a.DATA", false);
+path_case!(c21_t_case_data_suffix, b"a.data_1", true);
+path_case!(c21_t_case_no_extension, b"data", false);
+path_case!(c21_t_case_trailing_slash, b"a.data/", true);
